@@ -84,6 +84,21 @@ impl State for S {
                     Err(_) => "err".into(),
                 }
             }
+            ["close_reopen"] => {
+                // Db::close (checkpoint_on_close: rewrites the WAL when every run is merged), then open again
+                let Some(db) = self.db.take() else { return "bad-op".into() };
+                let Ok(db) = Arc::try_unwrap(db) else { return "db-shared".into() };
+                if db.close().is_err() {
+                    return "close-failed".into();
+                }
+                match Db::open(self.base().join("src")) {
+                    Ok(d) => {
+                        self.db = Some(Arc::new(d));
+                        "ok".into()
+                    }
+                    Err(_) => "reopen-failed".into(),
+                }
+            }
             ["source", ..] => {
                 let Some(db) = self.db.clone() else { return "bad-op".into() };
                 view(&db.snapshot(), self.next_tx.max(1) + 1)
@@ -160,6 +175,7 @@ fn generate(rng: &mut Rng, n: usize, _tier: &str, out: &mut dyn Write) {
                     writeln!(out, "compact").unwrap();
                     runs = 0;
                 }
+                9 if rng.chance(1, 2) => writeln!(out, "close_reopen").unwrap(),
                 5 | 6 => {
                     writeln!(out, "backup").unwrap();
                     nrest += 1;
@@ -169,7 +185,9 @@ fn generate(rng: &mut Rng, n: usize, _tier: &str, out: &mut dyn Write) {
                     writeln!(out, "backup_until").unwrap();
                     let k = 1 + rng.below(3);
                     for _ in 0..k {
-                        if runs > 0 && rng.chance(1, 3) {
+                        if rng.chance(1, 4) {
+                            writeln!(out, "close_reopen").unwrap();
+                        } else if runs > 0 && rng.chance(1, 3) {
                             writeln!(out, "compact").unwrap();
                             runs = 0;
                         } else if txs < 6 {
